@@ -6,7 +6,7 @@ Scenario (python dict; `to_sx` lowers it to the model's request):
   steps: list of ('timeout', dt) | ('data', dt, bytes) | ('eof', dt) | ('oserr', dt) | ('exc', dt) | ('selexc', dt)
   app:   dict event_index -> list of actions:
          ('text', payload_utf8_bytes, compress) | ('binary', bytes, compress) | ('ping', bytes) | ('pong', bytes)
-         | ('close', code|None, reason_bytes) | ('abandon', mechanism)   mechanism in break|raise|close|with
+         | ('close', code|None, reason_bytes) | ('abandon', mechanism)   mechanism in break|raise|close|with|rebind
   keys:  list of 4-byte masking keys (one per frame built)
   wfaults: list of 'ok'|'oserr'|'exc' per sendall, in order
   ztape / ctape: see compression scenarios
@@ -384,6 +384,17 @@ def run_impl(sc, url="ws://example.test/chat", ws_kwargs=None, check_alias=True)
                             run.stop_ok = False
                         except StopIteration:
                             run.stop_ok = True
+                    if mech == "rebind":
+                        # the reconnecting client's `events = ws.connect()`: the same WebSocket gets its next session while
+                        # the abandoned iterator of this connection is still referenced; only then is the old one released
+                        first = (run.sock, run.selector)
+                        gen2 = ws.connect(**kw)
+                        gen = None
+                        run.gen = None
+                        gc.collect()
+                        gen2.close()
+                        del gen2
+                        run.sock, run.selector = first
                     if mech == "close":
                         gen.close()
                     elif mech == "raise":
